@@ -190,8 +190,8 @@ def check(prop, tier, seed):
         cov['mechanism_drift'] = f'{nd} runs differ from the Mechanism model prediction'
         cov['b64_shape_behaviours_replayed'] = len(seen)
     simple.validate(prop, 'Trace_Web', verdict, ev, path, 'web', cov,
-                    clause_filter=lambda c: c.startswith(prop + '.') or c in ('NoPanic', 'NoHang', 'NothingAfterTheEnd', 'PendingArrangesWakeup'),
-                    harness_clauses={'UnknownEvent', 'InnerCalledOnce'})
+                    clause_filter=lambda c: c.startswith(prop + '.') or c in ('NoPanic', 'NoHang', 'NothingAfterTheEnd', 'PendingArrangesWakeup', 'InnerCalledOnce'),
+                    harness_clauses={'UnknownEvent'})
     cov['samples'].append({'family': 'web', 'stimulus': simple.sample_of(stims)})
     return simple.finish(prop, tier, seed, verdict, cov, mc, t0,
                          ['trailer values never start with a space in the stimuli (the wire format cannot distinguish it from the optional space after the colon)',
@@ -205,6 +205,6 @@ def replay(prop, path):
     verdict = core.Verdict(prop)
     cov = {'traces_validated_against_impl': 0, 'samples': []}
     ev, p = simple.run_lab('web', stims, f'{prop}_replay', 'replay', env={'VH_HANG_SECS': '10'})
-    simple.validate(prop, 'Trace_Web', verdict, ev, p, 'replay', cov, clause_filter=lambda c: c.startswith(prop + '.') or c in ('NoPanic', 'NoHang', 'NothingAfterTheEnd', 'PendingArrangesWakeup'),
-                    harness_clauses={'UnknownEvent', 'InnerCalledOnce'})
+    simple.validate(prop, 'Trace_Web', verdict, ev, p, 'replay', cov, clause_filter=lambda c: c.startswith(prop + '.') or c in ('NoPanic', 'NoHang', 'NothingAfterTheEnd', 'PendingArrangesWakeup', 'InnerCalledOnce'),
+                    harness_clauses={'UnknownEvent'})
     return verdict.finish()
